@@ -126,6 +126,7 @@ class StmtMixin:
                         out.extend(self.raise_ext(s, "FrozenInstanceError", target.attr))
                         continue
                     s.setfield(o, target.attr, v)
+                    self.hooks.on_store(self, s, o, target.attr, v)
                     out.append(s)
                 elif isinstance(o, Ref) and str(o.cls).startswith("opaque:"):
                     out.extend(self.hooks.opaque_setattr(self, s, o, target.attr, v))
